@@ -41,6 +41,9 @@ func (s *fileDisk) Finalize() {
 		p.buffer = nil
 	}
 
+	// a trailing seek past the end grows the RAM copy but not the file:
+	// extend the file to the recorded size so that disk readers return the same bytes
+	s.f.Truncate(int64(s.finalSize)) //nolint:errcheck
 	s.f.Close()
 	s.f = nil
 }
